@@ -153,6 +153,12 @@ def obs_steps_and_judge(obs, tx_index):
         elif parts[0] == 'supply':
             steps.append({'op': 'supply', 'denom': rj(':'.join(parts[1:]))})
             keys.append(k)
+        elif parts[0] == 'snap':
+            steps.append({'op': 'get_weight', 'addr': parts[1], 'epoch': str(parts[-1]), 'denom': rj(':'.join(parts[2:-1]))})
+            keys.append(k)
+        elif parts[0] == 'last':
+            steps.append({'op': 'get_last_claimed', 'addr': parts[1]})
+            keys.append(k)
         elif parts[0] == 'pool' and parts[1] not in pools:
             pools.add(parts[1])
             steps.append({'op': 'query', 'contract': 'pool_manager', 'msg': {'pools': {'pool_identifier': parts[1]}}})
@@ -184,7 +190,7 @@ def obs_steps_and_judge(obs, tx_index):
                         if amap.get(d) != v:
                             diffs.append('%s predicted %s native %s' % (kk, v, amap.get(d)))
             else:
-                nv = int(r['ok']) if 'ok' in r else None
+                nv = int(r['ok']) if ('ok' in r and r['ok'] is not None) else None
                 if nv != obs[k]:
                     diffs.append('%s predicted %s native %s' % (k, obs[k], nv))
         return diffs
